@@ -55,7 +55,8 @@ func (check) Assumptions() []string {
 		"injected faults are 500 errors that are NOT applied; API server pods/binding, kubelet index of reservation pods and initial watch events are emulated as in C11",
 		"node deletion = node object removed + pods bound to it removed (pod GC); the unbound pod of the request stays",
 		"conservation oracle = internal/oracle CheckC01 + CheckC02 on (store before the cycle, events of the cycle), which count live requests as occupying; a report on a node without a pod in hand-off is signed conservation-outside-handoff",
-		"snapshot idle check only for cpu, memory and whole-GPU count of nodes hosting a pod in hand-off; DRA-claimed devices are not driven (the generator creates no ResourceClaims)",
+		"snapshot idle check only for cpu, memory and whole-GPU count of nodes hosting a pod in hand-off",
+		"DRA: 25% of the clusters carry resource.k8s.io objects (internal/gen/dra.go: one non-GPU device class, node-local slices of 1-4 devices, claims of 1-2 devices, own / template / gang-shared); scheduler and binder run with the DynamicResourceAllocation gate on for them; the conservation oracle adds the claimed-device-conservation clause, the snapshot oracle demands for a binding pod the claim allocations of its request and their devices in the scheduler's allocated-device set; a stand-in for the resource claim controller removes consumers that are gone and deallocates unreserved claims in the kubelet step",
 		"control reschedule: judged in the cleaning cycle and the next one; the control nodes are tainted and only the control pod tolerates them; only the first control request may lose its node",
 	}
 }
